@@ -12,6 +12,7 @@ from vlib import common as C, genjava as G, scan as S
 from checks import c07
 
 LEAN_MODULES = ["Cpf.Props.C08"]
+NUM_WORKERS = 5
 
 
 def scan_as_nobody(root):
@@ -39,6 +40,11 @@ def restricted(resp, fpath):
 
 
 def run(run):
+    global NUM_WORKERS
+    try:
+        NUM_WORKERS = max(1, int(json.load(open(os.path.join(C.LEAN, "Cpf", "Generated", "tables.json"))).get("poolNumWorkers", "5")))
+    except Exception:
+        NUM_WORKERS = 5
     h = C.Harness()
     rng = run.rng
     quick = run.tier == "quick"
@@ -78,6 +84,17 @@ def run(run):
                     os.symlink(os.path.join(proj, "nowhere.java"), os.path.join(proj, "src", "Dangling.java"))
                     os.symlink(fpath, os.path.join(proj, "src", "LinkToF.java"))
                 contexts["symlinks"] = symlinks
+
+                def many_faulty():
+                    # more faulty entries than there are workers, queued before F and after it (the walk is lexical):
+                    # dangling links, links to a directory, a directory that is named like a source file
+                    k = 2 * NUM_WORKERS + 3
+                    for d in ("a0", "zz"):
+                        os.makedirs(os.path.join(proj, d, "Dir%s.java" % d), exist_ok=True)
+                        for i in range(k):
+                            os.symlink(os.path.join(proj, "nowhere%d.java" % i), os.path.join(proj, d, "Broken%02d.java" % i))
+                        os.symlink(os.path.join(proj, d), os.path.join(proj, d, "LinkToDir.java"))
+                contexts["many-faulty-siblings"] = many_faulty
                 order = list(contexts)
                 rng.shuffle(order)
                 for name in order:
@@ -104,6 +121,10 @@ def run(run):
                     u1 = write("src/locked/U.java", "class U { void u(){ int a = 1 + 2; } }")
                     u2 = write("src/main/Unreadable.java", ftext)
                     os.chmod(u2, 0o000)
+                    locked = [write("a1/Locked%02d.java" % i, ftext) for i in range(2 * NUM_WORKERS + 3)] + \
+                             [write("zy/Locked%02d.java" % i, ftext) for i in range(NUM_WORKERS + 1)]
+                    for lp in locked:
+                        os.chmod(lp, 0o000)
                     os.chmod(os.path.join(proj, "src", "locked"), 0o000)
                     for dp, dn, fn in os.walk(proj):
                         pass
@@ -119,10 +140,13 @@ def run(run):
                             if got != ref:
                                 run.violation("C08:fault-changes-file-report",
                                               "an unreadable file and an unreadable directory elsewhere in the project change what is reported for F (%d of %d entities left)" % (len(got[0]), len(ref[0])),
-                                              dict(F=ftext, layout=["src/locked/ (mode 000)", "src/main/Unreadable.java (mode 000)"]))
+                                              dict(F=ftext, layout=["src/locked/ (mode 000)", "src/main/Unreadable.java (mode 000)",
+                                                                    "a1/Locked00..%02d.java (mode 000)" % (2 * NUM_WORKERS + 2), "zy/Locked00..%02d.java (mode 000)" % NUM_WORKERS]))
                     finally:
                         os.chmod(os.path.join(proj, "src", "locked"), 0o755)
                         os.chmod(u2, 0o644)
+                        for lp in locked:
+                            os.chmod(lp, 0o644)
                 if case == 0:
                     run.sample(dict(F_bytes=len(ftext), F_entities=len(ref[0]), contexts=order + (["unreadable file + directory (uid 65534)"] if have_setpriv else [])))
             finally:
